@@ -7,6 +7,7 @@ import Driver.Dna
 import Driver.DynArr
 import Driver.StoreDrv
 import Driver.Acct
+import Driver.Eng
 
 open Jesse
 
@@ -21,6 +22,7 @@ def step (s : DState) (line : String) : DState × String :=
   | "dna" :: args => (s, Driver.Dna.handle args)
   | "fa" :: args => (s, Driver.StoreDrv.handleFa args)
   | "st" :: args => (s, Driver.StoreDrv.handleSt args)
+  | "eng" :: args => (s, Driver.Eng.handle args)
   | "acc" :: args => let (d, o) := Driver.Acct.handle s.acc args; ({ s with acc := d }, o)
   | "da" :: args => let (d, o) := Driver.DynArr.handle s.da args; ({ s with da := d }, o)
   | [] => (s, "")
